@@ -37,6 +37,7 @@ type SchemaType struct {
 	Fields []SchemaField
 	Line   int
 	File   string
+	Tags   []string
 }
 
 func parseSchemaLine(rest, path string, line int) (*SchemaType, error) {
@@ -97,7 +98,7 @@ var packHelper = map[string]string{
 	"str": "packString", "txts": "packStringTxt", "octet": "packStringOctet", "any": "packStringAny",
 	"hex": "packStringHex", "b64": "packStringBase64", "b32": "packStringBase32", "bitmap": "packDataNsec",
 	"names": "packDataDomainNames", "opts": "packDataOpt", "svcparams": "packDataSVCB", "apl": "packDataApl",
-	"gateway": "packIPSECGateway",
+	"gateway": "packIPSECGateway", "pubname": "PackDomainName",
 }
 
 var unpackHelper = map[string]string{
@@ -396,8 +397,18 @@ func (e *Engine) checkPackLayout(fn *ssa.Function, fields []SchemaField) layoutR
 						return layoutResult{false, fmt.Sprintf("field %s: buffer argument is not the caller's msg", sf.GoFields[0])}
 					}
 				case pn == "off" || pn == "offset":
-					if resolveOnPath(a, p) != cur {
+					if cur == nil {
+						// serialiser without an offset parameter: the first field starts at offset 0
+						cc, isC := a.(*ssa.Const)
+						if !isC || cc.Value == nil || cc.Int64() != 0 {
+							return layoutResult{false, fmt.Sprintf("field %s: the first field is not packed at offset 0", sf.GoFields[0])}
+						}
+					} else if resolveOnPath(a, p) != cur {
 						return layoutResult{false, fmt.Sprintf("field %s: offset argument is not the offset returned by the previous field", sf.GoFields[0])}
+					}
+				case pn == "compression" && compP == nil:
+					if !isNilRefConst(a) {
+						return layoutResult{false, fmt.Sprintf("field %s: a digest serialiser must not use a compression map", sf.GoFields[0])}
 					}
 				case pn == "compression":
 					if a != compP {
@@ -679,4 +690,35 @@ func sortStrings(xs []string) {
 			xs[j], xs[j-1] = xs[j-1], xs[j]
 		}
 	}
+}
+
+// wirefmtObligations: structural layout obligations for the hand-written digest serialisers (wirefmt lines).
+func (e *Engine) wirefmtObligations(prop string) []*Obligation {
+	var out []*Obligation
+	for _, st := range e.cs.WireFmts {
+		if !hasTag(st.Tags, prop) {
+			continue
+		}
+		fn := e.funcs[st.Name]
+		ob := &Obligation{Fn: st.Name, Name: st.Name + "#layout", Kind: "layout", Solver: "structural matcher (SSA data flow)"}
+		ob.Src = fmt.Sprintf("wirefmt %s: %s", st.Name, schemaText(st.Fields))
+		ob.Clause = &Clause{Label: "layout", Src: ob.Src, File: st.File, Line: st.Line}
+		if fn == nil || len(fn.Blocks) == 0 {
+			ob.Status = "failed"
+			ob.Output = "function not found"
+			out = append(out, ob)
+			continue
+		}
+		r := e.checkPackLayout(fn, st.Fields)
+		if r.ok {
+			ob.Status = "proved"
+		} else {
+			ob.Status = "failed"
+			ob.Output = r.msg
+			ob.Src += " -- " + r.msg
+		}
+		ob.Pos = fn.Pos()
+		out = append(out, ob)
+	}
+	return out
 }
